@@ -6,7 +6,8 @@
 //   - script: every call of f is gated; the script releases one call at a time (so late indices can
 //     finish first), cancels the caller's context, and after each action the quiescent observation
 //     (calls begun in order with the context state at entry, calls in progress, return value, out) is
-//     (1) fed to the Lean LTS through `driver pardo` (state-set conformance, P <= 3, n <= 6) and
+//     (1) fed to the Lean LTS through `driver pardo` (state-set conformance, P <= 3, n <= 6; Do / DoContext against
+//     the LTS of Model/ParDo.lean, Map / MapContext against the wrapper LTS of Model/ParWrap.lean) and
 //     (2) checked by the monitors written from the property text.
 //   - timed: per-index virtual latencies and scripted failures, n up to 10^4 and P up to 64; monitors only.
 package c13
